@@ -562,6 +562,155 @@ struct GP
 };
 
 // ---------------------------------------------------------------------------------------------------
+// C08t: hand-written parsers through the public DSL (constructed at compile time) with value-type mixes the injection templates cannot
+// express: a typed term whose value is no_type next to the error symbol (README's custom-lexer example uses such terms), recovery + precedence.
+namespace fx
+{
+using namespace ctpg; using namespace ctpg::ftors;
+constexpr uint64_t hmix(uint64_t x) { x += 0x9e3779b97f4a7c15ULL; x = (x ^ (x >> 30)) * 0xbf58476d1ce4e5b9ULL; x = (x ^ (x >> 27)) * 0x94d049bb133111ebULL; return x ^ (x >> 31); }
+constexpr uint64_t hc(uint64_t h, uint64_t v) { return hmix(h * 0x100000001b3ULL + v + 0x632be59bd9b4e019ULL); }
+constexpr uint64_t hs(std::string_view s) { uint64_t h = 1469598103934665603ULL; for (char c : s) h = hc(h, uint64_t(static_cast<unsigned char>(c))); return h; }
+constexpr uint64_t th(int term, std::string_view lex) { return hc(hc(0x7e57, uint64_t(term)), hs(lex)); }
+template<int... Map> struct TermIdx {};
+// parser A: terms a=0, b=1, ';'=2 (typed, value no_type)
+constexpr uint64_t valA(uint64_t v) { return v; }
+constexpr uint64_t valA(const term_value<char>& t) { char c = t.get_value(); return th(c == 'a' ? 0 : 1, std::string_view(&c, 1)); }
+constexpr uint64_t valA(const term_value<no_type>&) { return th(2, ";"); }
+constexpr uint64_t valA(no_type) { return 0xe44044ULL; }
+template<int R> struct FA { template<class... A> constexpr uint64_t operator()(A&&... a) const { uint64_t h = hc(0xabcd, uint64_t(R)); ((h = hc(h, valA(a))), ...); return h; } };
+constexpr nterm<uint64_t> stmts("stmts"), stmt("stmt");
+constexpr typed_term semi(char_term(';'), create<no_type>{});
+constexpr parser parser_a(
+    stmts, terms('a', 'b', semi), nterms(stmts, stmt),
+    rules(
+        stmts() >= FA<0>{},
+        stmts(stmts, stmt) >= FA<1>{},
+        stmt('a', semi) >= FA<2>{},
+        stmt('b', 'a', semi) >= FA<3>{},
+        stmt(error, semi) >= FA<4>{}
+    ));
+inline ref::Grammar grammar_a()
+{
+    ref::Grammar g; g.nT = 3; g.nN = 2; g.root = 0; g.tprec.assign(3, 0); g.tassoc.assign(3, ref::NONE);
+    auto T = [](int t) { return ref::Sym{true, t}; }; auto N = [](int n) { return ref::Sym{false, n}; };
+    auto add = [&](int lhs, std::vector<ref::Sym> rhs) { ref::Rule r; r.lhs = lhs; r.rhs = rhs; r.slot = int(g.rules.size()); g.rules.push_back(r); };
+    add(0, {}); add(0, {N(0), N(1)}); add(1, {T(0), T(2)}); add(1, {T(1), T(0), T(2)}); add(1, {T(4), T(2)});
+    return g;
+}
+// parser B: README's error-recovery example shape: terms n=0, '+'=1 (prec 1, ltor), ';'=2
+constexpr uint64_t valB(uint64_t v) { return v; }
+constexpr uint64_t valB(const term_value<char>& t) { char c = t.get_value(); return th(c == 'n' ? 0 : c == '+' ? 1 : 2, std::string_view(&c, 1)); }
+constexpr uint64_t valB(no_type) { return 0xe44044ULL; }
+template<int R> struct FB { template<class... A> constexpr uint64_t operator()(A&&... a) const { uint64_t h = hc(0xabcd, uint64_t(R)); ((h = hc(h, valB(a))), ...); return h; } };
+constexpr nterm<uint64_t> exprs("exprs"), expr("expr");
+constexpr char_term o_plus('+', 1, associativity::ltor);
+constexpr parser parser_b(
+    exprs, terms('n', o_plus, ';'), nterms(exprs, expr),
+    rules(
+        exprs() >= FB<0>{},
+        exprs(exprs, expr, ';') >= FB<1>{},
+        exprs(exprs, error, ';') >= FB<2>{},
+        expr(expr, '+', expr) >= FB<3>{},
+        expr('n') >= FB<4>{}
+    ));
+inline ref::Grammar grammar_b()
+{
+    ref::Grammar g; g.nT = 3; g.nN = 2; g.root = 0; g.tprec = {0, 1, 0}; g.tassoc = {ref::NONE, ref::LTOR, ref::NONE};
+    auto T = [](int t) { return ref::Sym{true, t}; }; auto N = [](int n) { return ref::Sym{false, n}; };
+    auto add = [&](int lhs, std::vector<ref::Sym> rhs) { ref::Rule r; r.lhs = lhs; r.rhs = rhs; r.slot = int(g.rules.size()); g.rules.push_back(r); };
+    add(0, {}); add(0, {N(0), N(1), T(2)}); add(0, {N(0), T(4), T(2)}); add(1, {N(1), T(1), N(1)}); add(1, {T(0)});
+    return g;
+}
+}
+
+struct FCase { int which = 0; std::vector<gg::Input> inputs; };
+struct P_C08t
+{
+    using Case = FCase;
+    static const char* id() { return "C08t"; }
+    static Case gen(Choice& ch)
+    {
+        Case c; c.which = int(ch.below(2)); eng::Rng rng = ch.fork();
+        const char* alpha = c.which == 0 ? "ab;" : "n+;";
+        int n = 4 + int(ch.below(10));
+        for (int i = 0; i < n; ++i)
+        {
+            gg::Input in; int len = int(rng.below(14));
+            for (int k = 0; k < len; ++k)
+            {
+                uint32_t r = rng.below(20);
+                if (r < 14) in.text += alpha[rng.below(3)];
+                else if (r < 17) in.text += " \n\t"[rng.below(3)];
+                else if (r < 19) in.text += c.which == 0 ? "a;" : "n;";
+                else in.text += "z?"[rng.below(2)];
+            }
+            if (rng.chance(1, 8)) in.skip_nl = false;
+            c.inputs.push_back(in);
+        }
+        return c;
+    }
+    static vj::Value to_json(const Case& c)
+    {
+        vj::Value o = vj::Value::object(); o.set("kind", "fixed-parser"); o.set("parser", c.which == 0 ? "A: stmts()|stmts(stmts,stmt); stmt('a',semi)|stmt('b','a',semi)|stmt(error,semi), semi = typed_term(';', create<no_type>)" : "B: exprs()|exprs(exprs,expr,';')|exprs(exprs,error,';'); expr(expr,'+',expr)|expr('n'), '+' prec 1 ltor");
+        o.set("which", c.which);
+        vj::Value in = vj::Value::array(); for (auto& i : c.inputs) { vj::Value x = vj::Value::object(); x.set("hex", vj::hex(i.text)); x.set("text", i.text); x.set("ws", i.skip_ws); x.set("nl", i.skip_nl); in.push(x); } o.set("inputs", in);
+        return o;
+    }
+    static Case from_json(const vj::Value& v)
+    {
+        Case c; c.which = int(v.at("which").as_int());
+        for (size_t i = 0; i < v.at("inputs").size(); ++i) { const auto& x = v.at("inputs").at(i); gg::Input in; in.text = vj::unhex(x.at("hex").as_str()); in.skip_ws = x.at("ws").as_bool(true); in.skip_nl = x.at("nl").as_bool(true); c.inputs.push_back(in); }
+        return c;
+    }
+    static std::vector<Case> shrinks(const Case& c, const vj::Value& d)
+    {
+        std::vector<Case> out;
+        if (d.has("input_index") && c.inputs.size() > 1) { size_t k = size_t(d.at("input_index").as_int()); if (k < c.inputs.size()) { Case x = c; x.inputs = {c.inputs[k]}; out.push_back(x); } }
+        if (c.inputs.size() <= 2) for (size_t k = 0; k < c.inputs.size(); ++k) for (size_t p = 0; p < c.inputs[k].text.size(); ++p) { Case x = c; x.inputs[k].text.erase(p, 1); out.push_back(x); }
+        return out;
+    }
+    static Verdict eval(const Case& c, Stats& st)
+    {
+        static const ref::Grammar ga = fx::grammar_a(), gb = fx::grammar_b();
+        const ref::Grammar& g = c.which == 0 ? ga : gb;
+        static ref::Analysis ana = ref::analyse(ga), anb = ref::analyse(gb);
+        static ref::Table ta = ref::build_lr1(ga, ana), tb = ref::build_lr1(gb, anb);
+        const ref::Table& T = c.which == 0 ? ta : tb;
+        const char* alpha = c.which == 0 ? "ab;" : "n+;";
+        size_t interesting = 0;
+        for (size_t k = 0; k < c.inputs.size(); ++k)
+        {
+            const gg::Input& in = c.inputs[k];
+            // reference tokenisation over this parser's three single-character terms
+            gg::Lexed L; { int line = 1, col = 1; for (size_t i = 0; i < in.text.size(); ++i) { unsigned char ch = (unsigned char)in.text[i]; bool ws = in.skip_ws && (ch == 9 || ch == 11 || ch == 12 || ch == 13 || ch == 32 || (ch == 10 && in.skip_nl)); if (ws) { if (ch == '\n') { ++line; col = 1; } else ++col; continue; } const char* q = strchr(alpha, ch); if (q && ch) { ref::Token t; t.term = int(q - alpha); t.lexeme = std::string(1, char(ch)); t.line = line; t.col = col; L.toks.push_back(t); ++col; continue; } L.lex_error = true; L.err_line = line; L.err_col = col; L.err_byte = ch; break; } L.eof_line = line; L.eof_col = col; }
+            ref::RunResult rr = ref::run_lr(T, L.toks, false, L.lex_error);
+            std::ostringstream os; bool has = false; uint64_t value = 0; bool threw = false; std::string exc;
+            try
+            {
+                auto opts = ctpg::parse_options{}.set_skip_whitespace(in.skip_ws).set_skip_newline(in.skip_nl);
+                if (c.which == 0) { auto r = fx::parser_a.parse(opts, ctpg::buffers::string_buffer(std::string(in.text)), os); has = r.has_value(); if (has) value = r.value(); }
+                else { auto r = fx::parser_b.parse(opts, ctpg::buffers::string_buffer(std::string(in.text)), os); has = r.has_value(); if (has) value = r.value(); }
+            }
+            catch (const std::exception& e) { threw = true; exc = e.what(); }
+            st.sub_evaluations += st.counting ? 1 : 0;
+            vj::Value d = vj::Value::object(); d.set("input_index", (unsigned long long)k); d.set("input", in.text); d.set("error_stream", os.str());
+            if (threw) { d.set("exception", exc); return Verdict::fail("parse threw during error recovery (value of the error symbol / typed term)", d); }
+            if (has != rr.accepted) { d.set("expected_success", rr.accepted); return Verdict::fail("recovery outcome differs from the documented algorithm", d); }
+            if (has && value != rr.value) return Verdict::fail("values kept/discarded by recovery differ from the documented algorithm", d);
+            Expect e; e.L = L; e.rr = rr;
+            std::vector<Msg> got, want;
+            for (int ti : rr.error_tokens) { if (size_t(ti) < L.toks.size()) want.push_back(Msg{0, L.toks[size_t(ti)].line, L.toks[size_t(ti)].col, std::string(1, alpha[L.toks[size_t(ti)].term])}); else want.push_back(Msg{0, L.eof_line, L.eof_col, "<eof>"}); }
+            if (rr.lex_error_reached) want.push_back(Msg{1, L.err_line, L.err_col, std::string(1, char(L.err_byte))});
+            if (!parse_msgs(os.str(), got) || !same_msgs(got, want)) { d.set("expected_messages", msgs_json(want)); return Verdict::fail("error report differs", d); }
+            if (!rr.error_tokens.empty()) ++interesting;
+        }
+        (void)g;
+        if (interesting && st.counting && st.nontriv(eng::hstr(to_json(c).dump()))) { st.label("nontrivial"); st.label(c.which == 0 ? "fixed-parser:A(no_type typed term + error)" : "fixed-parser:B(recovery + precedence)"); if (st.want_sample()) st.sample(to_json(c)); }
+        return Verdict::pass();
+    }
+};
+
+// ---------------------------------------------------------------------------------------------------
 // emit mode for the compiled tier (E9): generate grammars + inputs + expected results with the same generators and reference.
 // Output: one JSON document {"cases":[{grammar, strategy, class, inputs:[{hex, ws, nl, accept, value, messages}]}]}
 static int emit_cases(const eng::Args& a)
@@ -635,6 +784,7 @@ int main(int argc, char** argv)
         else if (a.prop == "C02") rc = eng::run_property<GP<C02>>(a);
         else if (a.prop == "C05") rc = eng::run_property<GP<C05>>(a);
         else if (a.prop == "C08") rc = eng::run_property<GP<C08>>(a);
+        else if (a.prop == "C08t") rc = eng::run_property<P_C08t>(a);
         else if (a.prop == "C09") rc = eng::run_property<GP<C09>>(a);
         else if (a.prop == "C10") rc = eng::run_property<GP<C10>>(a);
         else if (a.prop == "C11") rc = eng::run_property<GP<C11>>(a);
